@@ -406,6 +406,16 @@ CHECKS += [
          technique="lifted execution of the Hamiltonian builders on z3 real coupling terms; z3 QF_NRA coefficient-wise equality proofs; structural comparison of lattices"),
 ]
 
+CHECKS += [
+    dict(property_id="C53", category="proof", engine=E1,
+         text="Fermionic sentences with SYMBOLIC complex coefficients (10 words over 3 orbitals: ladder, hopping, number operators, repeated orbitals, identity) are mapped by the "
+              "REAL jordan_wigner, parity_transform and bravyi_kitaev (3 and 4 qubits, ps=True); z3 proves Pauli word by Pauli word, for all coefficient values, linearity, "
+              "multiplicativity M(s1*s2) == M(s1)@M(s2) (fermionic product of the library vs Pauli product of the images), M(adjoint) == adjoint(M) and invariance under "
+              "shift_operator (the anticommutation step of normal ordering); the canonical anticommutation relations are checked on the images for all orbital pairs.",
+         note=PROOF_NOTE + " Unitary equivalence of the mappings is implied by the CAR on 2^n dimensions and not checked separately. Outside: wire_map / tol options, operator output, > 3 orbitals.",
+         technique="lifted execution of the fermionic arithmetic and mappings on z3 complex-polynomial coefficients; z3 QF_NRA coefficient-wise equality proofs"),
+]
+
 _NOT_BUILT = "claimed in DESIGN.md §4 but its solver-based check is not built yet in this tree"
 NOT_APPLICABLE_REASONS = {
     "C04": "equality/hash: Python hash() of concrete payloads and tolerance-based allclose relations; no exact relation a solver can decide",
